@@ -48,6 +48,7 @@ pub const T0: u64 = 1_000 * SEC;
 
 thread_local! {
     static TL_NODE: Cell<Option<usize>> = const { Cell::new(None) };
+    static TL_EPOCH: Cell<u64> = const { Cell::new(0) };
     static TL_LOCAL: Cell<bool> = const { Cell::new(false) };
     static TL_CLOCK: Cell<u64> = const { Cell::new(T0) };
     static TL_HARNESS: Cell<bool> = const { Cell::new(false) };
@@ -162,13 +163,23 @@ struct Shared {
 }
 
 static NOW: AtomicU64 = AtomicU64::new(T0);
+/// World generation: actor threads of an earlier world (leaked because they were blocked)
+/// must never touch a later one.
+static EPOCH: AtomicU64 = AtomicU64::new(0);
 static SHARED: Mutex<Option<Shared>> = Mutex::new(None);
 
 fn shared() -> MutexGuard<'static, Option<Shared>> {
     SHARED.lock().unwrap_or_else(|e| e.into_inner())
 }
 
+fn stale_thread() -> bool {
+    TL_NODE.with(|n| n.get()).is_some() && TL_EPOCH.with(|e| e.get()) != EPOCH.load(Ordering::SeqCst)
+}
+
 fn current_node() -> Option<usize> {
+    if TL_EPOCH.with(|e| e.get()) != EPOCH.load(Ordering::SeqCst) {
+        return None;
+    }
     TL_NODE.with(|n| n.get())
 }
 
@@ -252,6 +263,9 @@ impl Env for SimEnv {
             local_net(|n| n.read_timeout = nanos);
             return;
         }
+        if stale_thread() {
+            return;
+        }
         if let Some(s) = shared().as_mut() {
             if let Some(node) = s.nodes.get_mut(handle as usize) {
                 node.read_timeout = nanos;
@@ -268,6 +282,9 @@ impl Env for SimEnv {
             local_net(|n| n.outbox.push((to, buf.to_vec())));
             return Ok(buf.len());
         }
+        if stale_thread() {
+            return Ok(buf.len());
+        }
         if let Some(s) = shared().as_mut() {
             s.outbox.push((handle as usize, to, buf.to_vec()));
         }
@@ -277,6 +294,8 @@ impl Env for SimEnv {
     fn udp_recv_from(&self, handle: u64, buf: &mut [u8]) -> io::Result<(usize, SocketAddr)> {
         let item = if handle == u64::MAX {
             local_net(|n| n.inbox.pop_front())
+        } else if stale_thread() {
+            None
         } else {
             shared()
                 .as_mut()
@@ -294,7 +313,7 @@ impl Env for SimEnv {
     }
 
     fn udp_close(&self, handle: u64) {
-        if handle == u64::MAX {
+        if handle == u64::MAX || stale_thread() {
             return;
         }
         if let Some(s) = shared().as_mut() {
@@ -313,14 +332,15 @@ impl Env for SimEnv {
         if let Some(s) = g.as_mut() {
             if let Some(n) = s.constructing.take() {
                 TL_NODE.with(|t| t.set(Some(n)));
+                TL_EPOCH.with(|e| e.set(EPOCH.load(Ordering::SeqCst)));
             }
         }
     }
 
     fn actor_turn(&self, snapshot: &dyn Fn() -> ActorSnapshot) -> bool {
         let Some(n) = current_node() else {
-            // An actor we do not control (should not happen): let it run free.
-            return true;
+            // An actor of an earlier world (or one we do not control): make it leave its loop.
+            return false;
         };
         let sync = match shared().as_ref() {
             Some(s) => s.nodes[n].sync.clone(),
@@ -438,6 +458,8 @@ pub struct NodeHandle {
     pub exited: Option<bool>,
     pub next_iter_at: u64,
     pub iterations: u64,
+    /// The actor thread did not return from an iteration within the watchdog time.
+    pub blocked: bool,
     contacted: BTreeSet<SocketAddrV4>,
     sync: Arc<NodeSync>,
     digest: u64,
@@ -573,6 +595,9 @@ pub struct FaultCfg {
 
 pub const DEFAULT_LATENCY: u64 = 10 * MS;
 
+/// Real-time limit for one granted loop iteration of an actor.
+pub const ITERATION_WATCHDOG_SECS: u64 = 20;
+
 pub fn full_fault_menu() -> Vec<Fate> {
     vec![
         Fate::Deliver(DEFAULT_LATENCY),
@@ -625,6 +650,7 @@ impl World {
             *live = true;
         }
         NOW.store(T0, Ordering::SeqCst);
+        EPOCH.fetch_add(1, Ordering::SeqCst);
         *shared() = Some(Shared {
             nodes: vec![],
             constructing: None,
@@ -743,6 +769,7 @@ impl World {
             exited: None,
             next_iter_at: self.now,
             iterations: 0,
+            blocked: false,
             contacted: BTreeSet::new(),
             sync,
             digest: 0,
@@ -781,8 +808,23 @@ impl World {
             assert_eq!(b.phase, Phase::Parked, "granting a node that is not parked");
             b.phase = Phase::Granted;
             sync.cv.notify_all();
+            let started = std::time::Instant::now();
             while !(b.phase == Phase::Parked || b.phase == Phase::Exited) {
-                b = sync.cv.wait(b).unwrap_or_else(|e| e.into_inner());
+                let (g, _) = sync
+                    .cv
+                    .wait_timeout(b, Duration::from_millis(200))
+                    .unwrap_or_else(|e| e.into_inner());
+                b = g;
+                if started.elapsed() > Duration::from_secs(ITERATION_WATCHDOG_SECS) && !(b.phase == Phase::Parked || b.phase == Phase::Exited) {
+                    // The actor never came back from one loop iteration: it is blocked (or
+                    // spinning) inside the library. Give up on it; the thread is leaked.
+                    drop(b);
+                    let n = &mut self.nodes[node];
+                    n.alive = false;
+                    n.blocked = true;
+                    n.next_iter_at = u64::MAX;
+                    return;
+                }
             }
             if b.phase == Phase::Exited {
                 let p = b.panicked;
@@ -854,7 +896,7 @@ impl World {
 
     /// Stop a node abruptly: its actor leaves the loop, its socket closes, handles are dropped.
     pub fn crash(&mut self, node: usize) {
-        if !self.nodes[node].alive {
+        if !self.nodes[node].alive || self.nodes[node].blocked {
             return;
         }
         let sync = self.nodes[node].sync.clone();
@@ -890,7 +932,7 @@ impl World {
     }
 
     pub fn any_actor_panicked(&self) -> Option<usize> {
-        self.nodes.iter().position(|n| n.exited == Some(true))
+        self.nodes.iter().position(|n| n.exited == Some(true) || n.blocked)
     }
 
     // --- endpoints ---------------------------------------------------------------------------
@@ -1476,6 +1518,9 @@ impl Drop for World {
             c.fut = None;
         }
         for i in 0..self.nodes.len() {
+            if self.nodes[i].blocked {
+                continue;
+            }
             if self.nodes[i].alive {
                 self.crash(i);
             } else {
